@@ -4,8 +4,44 @@
 package main
 
 //@ func intersect(a, b) (res, err)
+//@   ensures (not (isErr err))
+//@   ensures (= res (interF a b))                                                  [C16]
+//@   ensures (=> (= a b) (= res a))                                                [C16]
 //@   decreases (rank a) 2
+//
 //@ func intersectMap(a, b) (res, err)
+//@   requires ((_ is VMap) a) (not (= b VNil))
+//@   ensures (not (isErr err))
+//@   ensures (= res (interF a b))                                                  [C16]
+//@   ensures (=> (= a b) (= res a))                                                [C16]
 //@   decreases (rank a) 1
+//
 //@ func intersectMapMap(a, b) (res, err)
+//@   requires ((_ is VMap) a) ((_ is VMap) b)
+//@   ensures (not (isErr err))
+//@   ensures (= res (interF a b))                                                  [C16]
+//@   ensures (=> (= a b) (= res a))                                                [C16]
 //@   decreases (rank a) 0
+//@   loop 1
+//@     invariant ((_ is VMap) ret)
+//@     invariant (forall ((j String)) (=> (select visited j) (interEnt (select (mc a) j) (select (mc b) j) (select (mc ret) j))))
+//@     invariant (forall ((j String)) (=> (not (select visited j)) (= (select (mc ret) j) VAbsent)))
+//@     invariant (=> (= a b) (forall ((j String)) (=> (select visited j) (= (select (mc ret) j) (select (mc a) j)))))
+//
+//@ func intersectList(a, b) (res, err)
+//@   requires (not (= b VNil))
+//@   ensures (not (isErr err))
+//@   ensures (= res (interF a b))                                                  [C16]
+//@   ensures (=> (= a b) (= res a))                                                [C16]
+//
+//@ func intersectListList(a, b) (res, err)
+//@   uses appNil, snocApp, keepAll, allInRefl
+//@   ensures (not (isErr err))
+//@   ensures (= res (interF a b))                                                  [C16]
+//@   ensures (=> (= a b) (= res a))                                                [C16]
+//@   loop 1
+//@     invariant ((_ is VList) ret)
+//@     invariant (= (app (ls ret) (keepCommon rest (ls b))) (keepCommon (ls a) (ls b)))
+//@   loop 2
+//@     invariant (= ret ret@loop)
+//@     invariant (= (lmem v1 rest) (lmem v1 (ls b)))
